@@ -21,7 +21,8 @@ RULE = (
     "built by an independent transformation (vlib/model.story_send_to_story); roReplace content equals "
     "the sent one modulo the tag name; every carried roMetadataReplace child has an equal counterpart "
     "under roCreate.  Non-trivial = merge succeeded and (>= 2 carried elements or a carried element "
-    "of depth >= 3 or with attributes/tails).")
+    "of depth >= 3 or with attributes/tails)."
+    ' Round 11: returning-element histories (a story / item taken away by any of 10 kinds and carried in again must arrive).')
 ASSUMPTIONS = ['carried stories/items have fresh IDs, or the ID of the element they replace']
 MANDATORY = ['via-collection', 'StorySend', 'StoryAppend', 'StoryInsert', 'StoryReplace', 'ItemInsert', 'ItemReplace',
              'RunningOrderReplace', 'MetaDataReplace', 'EAStoryReplace', 'EAItemReplace',
